@@ -212,6 +212,27 @@ def channel_case(p, res):
             want = val if par == "power" else fxp / 10 ** (val / 10) if par == "snr" else 2 * val ** 2 * (2 if cplx else 1)
             if not (abs(pn - want) <= TOL * want):
                 v("power" if par != "snr" else "snr", f"double-precision input, {par}={val}: measured noise power {pn:.6g}, configured {want:.6g} (ratio {pn / want:.4f})", {"val": val, "double": True})
+        # ------------- (i-z) signals with exact zeros (on-off keying, zero-padded bursts): the SNR refers to the mean power of the WHOLE signal
+        if par == "snr":
+            idx = torch.arange(N)
+            for mname, mask in (("on-off", (idx % 2 == 0)), ("burst", idx < N // 4), ("sparse", idx % 16 == 3)):
+                for val in (values[1], values[len(values) // 2], values[-2]):
+                    x = signal(N, 4.0, cplx, 0) * mask.to(torch.float32)
+                    run, ref = build(ch, par, val, mode)
+                    try:
+                        with Seam(Quantile()):
+                            y = run(x)
+                        fx = ref(x)
+                    except Exception as e:  # noqa: BLE001
+                        v("raises", f"{mname} signal, snr={val}: {type(e).__name__}: {str(e)[:200]}")
+                        continue
+                    res.ev(1, nontrivial=1, transitions=1)
+                    n = (y - fx).to(torch.complex128 if (y.is_complex() or fx.is_complex()) else torch.float64)
+                    pn = float((n.abs() ** 2).mean())
+                    fxp = float((fx.to(torch.complex128 if fx.is_complex() else torch.float64).abs() ** 2).mean())
+                    want = fxp / 10 ** (val / 10)
+                    if not (abs(pn - want) <= TOL * want):
+                        v("snr", f"{mname} signal ({float(mask.float().mean()):.3f} of the samples non-zero), snr={val}: measured noise power {pn:.6g}, signal power / SNR = {want:.6g} (ratio {pn / want:.4f})", {"val": val, "mask": mname})
         # ------------- (ii) exact scale law under the alphabet policy (Gaussian channels: y = f(x) + s*z elementwise)
         L = 6
         zs = [0.5, -1.25, 2.0, -0.75, 1.5, -2.5, 0.25, 1.0, -1.0, 3.0, -0.5, 0.75]
